@@ -210,7 +210,7 @@ def main(argv=None) -> int:
             "evaluations": agg["evaluations"],
             "distinct_nontrivial": len(agg["nontrivial"]),
             "rule": getattr(mod, "RULE", ""),
-            "samples": agg["samples"],
+            "samples": agg["samples"] or [{"item": it} for it in items[:2]],
             "exhaustive": False,
             "work_items": len(items),
             "work_items_run": agg["items_run"],
